@@ -49,16 +49,19 @@ def _default_dt(dtype, fallback=float):
 
 
 def np_zeros(shape, dtype=None, order='C', **kw):
+    _reject_kw('zeros', kw)
     dt = _default_dt(dtype)
     return SArr.from_typed(_np.zeros(_shape(shape), dtype=dt))
 
 
 def np_ones(shape, dtype=None, order='C', **kw):
+    _reject_kw('ones', kw)
     dt = _default_dt(dtype)
     return SArr.from_typed(_np.ones(_shape(shape), dtype=dt))
 
 
 def np_empty(shape, dtype=None, order='C', **kw):
+    _reject_kw('empty', kw)
     dt = _default_dt(dtype)
     shape = _shape(shape)
     o = _np.empty(shape, dtype=object)
@@ -70,6 +73,7 @@ def np_empty(shape, dtype=None, order='C', **kw):
 
 
 def np_full(shape, fill_value, dtype=None, order='C', **kw):
+    _reject_kw('full', kw)
     fill_value = _unlazy(fill_value)
     if dtype is None:
         dtype = _scalar_dtype(fill_value)
@@ -83,24 +87,28 @@ def np_full(shape, fill_value, dtype=None, order='C', **kw):
 
 
 def np_zeros_like(a, dtype=None, **kw):
+    _reject_kw('zeros_like', kw)
     a = _unlazy(a)
     dt = dtype if dtype is not None else (a.dtype if hasattr(a, 'dtype') else _np.asarray(a).dtype)
     return np_zeros(_np.shape(_shape_src(a)), dtype=dt)
 
 
 def np_ones_like(a, dtype=None, **kw):
+    _reject_kw('ones_like', kw)
     a = _unlazy(a)
     dt = dtype if dtype is not None else (a.dtype if hasattr(a, 'dtype') else _np.asarray(a).dtype)
     return np_ones(_np.shape(_shape_src(a)), dtype=dt)
 
 
 def np_empty_like(a, dtype=None, **kw):
+    _reject_kw('empty_like', kw)
     a = _unlazy(a)
     dt = dtype if dtype is not None else (a.dtype if hasattr(a, 'dtype') else _np.asarray(a).dtype)
     return np_empty(_np.shape(_shape_src(a)), dtype=dt)
 
 
 def np_full_like(a, fill_value, dtype=None, **kw):
+    _reject_kw('full_like', kw)
     a = _unlazy(a)
     dt = dtype if dtype is not None else (a.dtype if hasattr(a, 'dtype') else _np.asarray(a).dtype)
     return np_full(_np.shape(_shape_src(a)), fill_value, dtype=dt)
@@ -138,6 +146,7 @@ def _leaf_dtype(x):
 
 
 def np_array(obj, dtype=None, copy=True, order='K', subok=False, ndmin=0, **kw):
+    _reject_kw('array', kw)
     obj = _unlazy(obj)
     if type(obj).__name__ == 'SymMatrix' and not subok:
         obj = obj.view_plain()            # np.array / np.asarray of an np.matrix is a plain ndarray
@@ -200,6 +209,7 @@ def _object_array_from_list(obj):
 
 
 def np_asarray(a, dtype=None, **kw):
+    _reject_kw('asarray', kw)
     a = _unlazy(a)
     if type(a).__name__ == 'SymMatrix':
         a = a.view_plain()
@@ -225,12 +235,14 @@ def _as_layout(a, dtype, order):
 
 
 def np_asfortranarray(a, dtype=None, **kw):
+    _reject_kw('asfortranarray', kw)
     if _conc(a) and not isinstance(a, SArr):
         return _delegate('asfortranarray', a, dtype=dtype)
     return _as_layout(a, dtype, 'F')
 
 
 def np_ascontiguousarray(a, dtype=None, **kw):
+    _reject_kw('ascontiguousarray', kw)
     if _conc(a) and not isinstance(a, SArr):
         return _delegate('ascontiguousarray', a, dtype=dtype)
     return _as_layout(a, dtype, 'C')
@@ -255,15 +267,18 @@ def np_result_type(*args):
 
 
 def np_copy(a, **kw):
+    _reject_kw('copy', kw)
     return _as_sarr(a).copy()
 
 
 def np_arange(*args, dtype=None, **kw):
+    _reject_kw('arange', kw)
     args = [operator.index(a) if isinstance(a, SInt) else a for a in args]
     return SArr.from_typed(_np.arange(*args, dtype=dtype))
 
 
 def np_eye(N, M=None, k=0, dtype=float, **kw):
+    _reject_kw('eye', kw)
     return SArr.from_typed(_np.eye(operator.index(N), None if M is None else operator.index(M), k, dtype=dtype))
 
 
@@ -332,6 +347,17 @@ def _conc(a):
     return (isinstance(a, SArr) and a.is_concrete()) or (not isinstance(a, SArr) and not has_sym(a))
 
 
+_HARMLESS_KW = {'like': (None,), 'subok': (True, False), 'order': (None, 'C')}
+
+
+def _reject_kw(fname, kw):
+    """keyword arguments this front end does not model must not be dropped silently"""
+    for k, v in kw.items():
+        ok = _HARMLESS_KW.get(k)
+        if ok is None or not any(v is o or v == o for o in ok):
+            raise Unsupported('%s(%s=%r) is not modelled' % (fname, k, v))
+
+
 def _delegate(name, *args, **kw):
     f = _resolve(name)
     with _np.errstate(all='ignore'):
@@ -356,15 +382,17 @@ def np_sum(a, axis=None, dtype=None, out=None, keepdims=False, initial=None, whe
         a = np_array(a)
     if where is not True or out is not None:
         raise Unsupported('sum(where=/out=)')
-    if _conc(a):
-        return _delegate('sum', a, axis=axis, dtype=dtype, keepdims=keepdims)
+    _reject_kw('sum', kw)
+    if _conc(a) and not isinstance(initial, core.SVal):
+        return _delegate('sum', a, axis=axis, dtype=dtype, keepdims=keepdims, **({} if initial is None else {'initial': initial}))
     a = _as_sarr(a)
     odt = _np.dtype(dtype) if dtype is not None else _sum_dtype(a.ldtype)
-    zero = coerce(0, odt)
+    zero = coerce(0 if initial is None else initial, odt)
     return _reduce_axis(a, axis, lambda acc, c: acc + coerce(c, odt), lambda: zero, keepdims, odt)
 
 
 def np_prod(a, axis=None, dtype=None, keepdims=False, **kw):
+    _reject_kw('prod', kw)
     a = _unlazy(a)
     if _conc(a):
         return _delegate('prod', a, axis=axis, dtype=dtype, keepdims=keepdims)
@@ -375,6 +403,7 @@ def np_prod(a, axis=None, dtype=None, keepdims=False, **kw):
 
 
 def np_mean(a, axis=None, dtype=None, keepdims=False, **kw):
+    _reject_kw('mean', kw)
     a = _unlazy(a)
     if _conc(a):
         return _delegate('mean', a, axis=axis, dtype=dtype, keepdims=keepdims)
@@ -397,10 +426,13 @@ def np_max(a, axis=None, out=None, keepdims=False, initial=None, where=True, **k
     a = _unlazy(a)
     if isinstance(a, (list, tuple)):
         a = np_array(a)
-    if _conc(a):
-        return _delegate('max', a, axis=axis, keepdims=keepdims)
-    return _reduce_axis(a, axis, lambda acc, c: s_max(acc, c), lambda: _NOINIT, keepdims,
-                        empty_err='zero-size array to reduction operation maximum which has no identity')
+    if where is not True:
+        raise Unsupported('max(where=...) is not modelled')
+    _reject_kw('max', kw)
+    if _conc(a) and not isinstance(initial, core.SVal):
+        return _delegate('max', a, axis=axis, keepdims=keepdims, **({} if initial is None else {'initial': initial}))
+    return _reduce_axis(a, axis, lambda acc, c: s_max(acc, c), (lambda: _NOINIT) if initial is None else (lambda: initial), keepdims,
+                        empty_err=None if initial is not None else 'zero-size array to reduction operation maximum which has no identity')
 
 
 def np_min(a, axis=None, out=None, keepdims=False, initial=None, where=True, **kw):
@@ -409,10 +441,13 @@ def np_min(a, axis=None, out=None, keepdims=False, initial=None, where=True, **k
     a = _unlazy(a)
     if isinstance(a, (list, tuple)):
         a = np_array(a)
-    if _conc(a):
-        return _delegate('min', a, axis=axis, keepdims=keepdims)
-    return _reduce_axis(a, axis, lambda acc, c: s_min(acc, c), lambda: _NOINIT, keepdims,
-                        empty_err='zero-size array to reduction operation minimum which has no identity')
+    if where is not True:
+        raise Unsupported('min(where=...) is not modelled')
+    _reject_kw('min', kw)
+    if _conc(a) and not isinstance(initial, core.SVal):
+        return _delegate('min', a, axis=axis, keepdims=keepdims, **({} if initial is None else {'initial': initial}))
+    return _reduce_axis(a, axis, lambda acc, c: s_min(acc, c), (lambda: _NOINIT) if initial is None else (lambda: initial), keepdims,
+                        empty_err=None if initial is not None else 'zero-size array to reduction operation minimum which has no identity')
 
 
 def _argext(a, axis, better):
@@ -454,6 +489,7 @@ def _lt_nan(c, best):
 
 
 def np_argmax(a, axis=None, out=None, **kw):
+    _reject_kw('argmax', kw)
     if out is not None:
         raise Unsupported('argmax(out=...) is not modelled')
     a = _unlazy(a)
@@ -465,6 +501,7 @@ def np_argmax(a, axis=None, out=None, **kw):
 
 
 def np_argmin(a, axis=None, out=None, **kw):
+    _reject_kw('argmin', kw)
     if out is not None:
         raise Unsupported('argmin(out=...) is not modelled')
     a = _unlazy(a)
@@ -476,6 +513,7 @@ def np_argmin(a, axis=None, out=None, **kw):
 
 
 def np_all(a, axis=None, out=None, keepdims=False, **kw):
+    _reject_kw('all', kw)
     if out is not None:
         raise Unsupported('all(out=...) is not modelled')
     a = _unlazy(a)
@@ -487,6 +525,7 @@ def np_all(a, axis=None, out=None, keepdims=False, **kw):
 
 
 def np_any(a, axis=None, out=None, keepdims=False, **kw):
+    _reject_kw('any', kw)
     if out is not None:
         raise Unsupported('any(out=...) is not modelled')
     a = _unlazy(a)
@@ -498,6 +537,7 @@ def np_any(a, axis=None, out=None, keepdims=False, **kw):
 
 
 def np_count_nonzero(a, axis=None, **kw):
+    _reject_kw('count_nonzero', kw)
     a = _unlazy(a)
     if _conc(a):
         return _delegate('count_nonzero', a, axis=axis)
@@ -505,6 +545,7 @@ def np_count_nonzero(a, axis=None, **kw):
 
 
 def np_cumsum(a, axis=None, dtype=None, **kw):
+    _reject_kw('cumsum', kw)
     a = _unlazy(a)
     if _conc(a):
         return _delegate('cumsum', a, axis=axis, dtype=dtype)
@@ -630,6 +671,7 @@ def np_nonzero(a):
 
 
 def np_unique(ar, return_index=False, return_inverse=False, return_counts=False, axis=None, **kw):
+    _reject_kw('unique', kw)
     ar = _unlazy(ar)
     if _conc(ar):
         return _delegate('unique', ar, return_index=return_index, return_inverse=return_inverse,
@@ -688,6 +730,7 @@ def np_unique(ar, return_index=False, return_inverse=False, return_counts=False,
 
 
 def np_concatenate(arrs, axis=0, out=None, dtype=None, **kw):
+    _reject_kw('concatenate', kw)
     if out is not None:
         raise Unsupported('concatenate(out=...) is not modelled')
     arrs = [_unlazy(x) for x in arrs]
@@ -703,6 +746,7 @@ def np_concatenate(arrs, axis=0, out=None, dtype=None, **kw):
 
 
 def np_hstack(tup, **kw):
+    _reject_kw('hstack', kw)
     arrs = [np_atleast_1d(_unlazy(x)) for x in tup]
     if arrs and arrs[0].ndim == 1:
         return np_concatenate(arrs, 0)
@@ -710,11 +754,13 @@ def np_hstack(tup, **kw):
 
 
 def np_vstack(tup, **kw):
+    _reject_kw('vstack', kw)
     arrs = [np_atleast_2d(_unlazy(x)) for x in tup]
     return np_concatenate(arrs, 0)
 
 
 def np_stack(arrays, axis=0, **kw):
+    _reject_kw('stack', kw)
     sa = [_as_sarr(_unlazy(x)) for x in arrays]
     if not sa:
         raise ValueError('need at least one array to stack')
@@ -770,6 +816,7 @@ def np_diagonal(a, offset=0, axis1=0, axis2=1):
 
 
 def np_trace(a, **kw):
+    _reject_kw('trace', kw)
     return np_sum(np_diagonal(a))
 
 
@@ -788,6 +835,7 @@ def np_transpose(a, axes=None):
 
 
 def np_reshape(a, *shape, **kw):
+    _reject_kw('reshape', kw)
     a = _as_sarr(a)
     if 'newshape' in kw:
         shape = (kw['newshape'],)
@@ -797,6 +845,7 @@ def np_reshape(a, *shape, **kw):
 
 
 def np_ravel(a, **kw):
+    _reject_kw('ravel', kw)
     return _as_sarr(a).reshape(-1)
 
 
@@ -877,6 +926,7 @@ def np_dot(a, b, out=None):
 
 
 def np_matmul(a, b, _dot=False, **kw):
+    _reject_kw('matmul', kw)
     a, b = _unlazy(a), _unlazy(b)
     if _conc(a) and _conc(b):
         return _delegate('dot' if _dot else 'matmul', a, b)
@@ -924,6 +974,7 @@ def np_matmul(a, b, _dot=False, **kw):
 
 
 def np_argsort(a, axis=-1, kind=None, **kw):
+    _reject_kw('argsort', kw)
     a = _unlazy(a)
     if _conc(a):
         return _delegate('argsort', a, axis=axis, kind=kind)
@@ -944,6 +995,7 @@ def np_argsort(a, axis=-1, kind=None, **kw):
 
 
 def np_sort(a, axis=-1, **kw):
+    _reject_kw('sort', kw)
     a = _unlazy(a)
     if _conc(a):
         return _delegate('sort', a, axis=axis)
@@ -982,6 +1034,7 @@ def np_searchsorted(a, v, side='left', sorter=None):
 
 
 def np_clip(a, a_min=None, a_max=None, out=None, **kw):
+    _reject_kw('clip', kw)
     a = _unlazy(a)
     if _conc(a) and _conc(a_min) and _conc(a_max) and out is None:
         return _delegate('clip', a, a_min, a_max)
@@ -1085,6 +1138,7 @@ def np_bincount(x, weights=None, minlength=0):
 
 
 def np_diff(a, n=1, axis=-1, **kw):
+    _reject_kw('diff', kw)
     a = _unlazy(a)
     if _conc(a):
         return _delegate('diff', a, n=n, axis=axis)
@@ -1100,6 +1154,7 @@ def np_diff(a, n=1, axis=-1, **kw):
 
 
 def np_round(a, decimals=0, **kw):
+    _reject_kw('round', kw)
     a = _unlazy(a)
     if _conc(a):
         return _delegate('round', a, decimals)
@@ -1125,6 +1180,7 @@ def np_allclose(a, b, rtol=1e-05, atol=1e-08, equal_nan=False):
 
 
 def np_array_equal(a, b, **kw):
+    _reject_kw('array_equal', kw)
     a, b = _unlazy(a), _unlazy(b)
     if np_shape(a) != np_shape(b):
         return False
@@ -1132,6 +1188,7 @@ def np_array_equal(a, b, **kw):
 
 
 def np_median(a, **kw):
+    _reject_kw('median', kw)
     if _conc(a):
         return _delegate('median', a, **kw)
     raise Unsupported('median on symbolic cells')
@@ -1163,6 +1220,7 @@ def np_digitize(x, bins, right=False):
 
 
 def np_may_share_memory(a, b, **kw):
+    _reject_kw('may_share_memory', kw)
     return _np.may_share_memory(_raw(a) if isinstance(a, SArr) else a, _raw(b) if isinstance(b, SArr) else b)
 
 
